@@ -66,10 +66,10 @@ Theorem broken_reference : forall fuel t g ob lv h k st acc e,
   traverse (S fuel) t g ob lv h (k :: st) acc = Err ELaspy.
 Proof.
   intros fuel t g ob lv h k st acc e Hb Hs Hl Hr Hp. cbn [traverse]. rewrite Hb, Hs, Hl, Hr. cbn [negb].
-  rewrite merge_spec, Hl, Hr.
+  unfold page_describes.
   destruct (lookup k (page_dict (page_at (t_pages t) (e_off e) (e_size e)))) as [e'|] eqn:E'.
   - rewrite (Hp e' eq_refl). reflexivity.
-  - rewrite Hr. reflexivity.
+  - reflexivity.
 Qed.
 
 Theorem broken_root_reference : forall fuel t g ob lv e,
